@@ -33,6 +33,7 @@ type concCfg struct {
 	Leaky          bool // the default LeakyBucketPacer instead of the recording NoOp pacer
 	NoCB           bool
 	Pattern        string // arrival pattern of the feedback (overuse makes the delay controller publish)
+	PacerCloseErr  bool   `json:",omitempty"` // user-supplied pacer (around the NoOp / leaky bucket pacer) whose Close reports an error
 }
 
 type concEv struct {
@@ -77,11 +78,20 @@ func runConc(cfg concCfg, fails *[]cq.ImplFailure) concCase {
 	base := gccGoroutines()
 	opts := []gcc.Option{}
 	p := &pacer{NoOpPacer: gcc.NewNoOpPacer()}
-	if cfg.Leaky {
+	var sp *scriptedPacer
+	switch {
+	case cfg.PacerCloseErr:
+		sp = newScriptedPacer(cfg.Leaky, 20_000_000, []bool{true, true, true, true, true, true, true, true})
+		opts = append(opts, gcc.SendSideBWEPacer(sp))
+		if cfg.Leaky {
+			opts = append(opts, gcc.SendSideBWEInitialBitrate(20_000_000))
+		}
+	case cfg.Leaky:
 		opts = append(opts, gcc.SendSideBWEInitialBitrate(20_000_000))
-	} else {
+	default:
 		opts = append(opts, gcc.SendSideBWEPacer(p))
 	}
+	var pacerErrs atomic.Int64 // Close calls that returned the pacer's error
 	bwe, err := gcc.NewSendSideBWE(opts...)
 	if err != nil {
 		panic(err)
@@ -184,6 +194,10 @@ func runConc(cfg concCfg, fails *[]cq.ImplFailure) concCase {
 		}()
 		s1 := stamp.Add(1)
 		add(concEv{Stamp: s1, Kind: "retC", ID: id})
+		if cfg.PacerCloseErr && errors.Is(err, errPacerClose) {
+			pacerErrs.Add(1) // the one Close that closed the pacer reports the pacer's error
+			err = nil
+		}
 		if err != nil {
 			mu.Lock()
 			*fails = append(*fails, cq.ImplFailure{Kind: "close-error", Detail: "Close returned " + err.Error(), Case: c.Cfg})
@@ -257,6 +271,13 @@ func runConc(cfg concCfg, fails *[]cq.ImplFailure) concCase {
 				c.NAfterClosed++
 			}
 		}
+		if sp != nil && (sp.calls.Load() != 1 || pacerErrs.Load() != 1) {
+			mu.Lock()
+			*fails = append(*fails, cq.ImplFailure{Kind: "pacer-close-count", Detail: fmt.Sprintf(
+				"%d Close calls: the pacer's Close (which reports an error) was called %d times and %d Close calls returned its error; expected 1 and 1",
+				cfg.Closers+1, sp.calls.Load(), pacerErrs.Load()), Case: c.Cfg})
+			mu.Unlock()
+		}
 		left := gccGoroutines() - base
 		for dl := time.Now().Add(300 * time.Millisecond); left > 0 && time.Now().Before(dl); left = gccGoroutines() - base {
 			time.Sleep(5 * time.Millisecond)
@@ -302,6 +323,9 @@ func (c concCase) toCase() cq.Case {
 	} else {
 		b = append(b, "noop-pacer")
 	}
+	if c.Cfg.PacerCloseErr {
+		b = append(b, "pacer-close-fails")
+	}
 	if nOK > 0 && nClosed > 2 {
 		b = append(b, "close-overtook-some-feedback")
 	}
@@ -320,7 +344,7 @@ func genConc(r *rand.Rand, i int) concCfg {
 	return concCfg{
 		Seed: r.Int63(), Writers: 1 + r.Intn(6), CallsPerWriter: 1 + r.Intn(5), Getters: r.Intn(3),
 		Closers: 1 + r.Intn(3), CloseDelayUs: []int{0, 20, 100, 300, 1000, 3000}[r.Intn(6)],
-		Leaky: i%4 == 1, NoCB: i%5 == 4, Pattern: pats[i%len(pats)],
+		Leaky: i%4 == 1, NoCB: i%5 == 4, Pattern: pats[i%len(pats)], PacerCloseErr: i%3 == 2,
 	}
 }
 
